@@ -29,6 +29,21 @@ def read_only_ops(proj, rng, n):
     for r in rows:
         units_of.setdefault(r["qt"], []).append(r["unit"])
     ops = []
+    cats_of = {}
+    for c_ in cats:
+        cats_of.setdefault(c_["qt"], []).append(c_["cat"])
+    from collections import OrderedDict
+    for _ in range(n // 25):
+        # a derived quantity holding two categories of one quantity type in different units: summed (first op), then
+        # requested again and projected (second op) - the answer must be the one a fresh database gives
+        qt = rng.choice([q for q, cs in cats_of.items() if len(cs) >= 2 and len(units_of.get(q, [])) >= 2])
+        c1, c2 = rng.sample(cats_of[qt], 2)
+        u1, u2 = rng.sample(units_of[qt], 2)
+        spec = lambda c1=c1, c2=c2, u1=u1, u2=u2: OrderedDict([(c1, [u1, 1]), (c2, [u2, 1])])
+        ops.append(("sum with %s.%s [%s,%s]" % (u1, u2, c1, c2),
+                    lambda db, spec=spec, c1=c1, u1=u1: P.value_obj(Scalar(ObtainQuantity(spec()), 1.0) + Scalar(1.0, u1, c1) * Scalar(1.0, u1, c1))))
+        ops.append(("ObtainQuantity(map %s.%s [%s,%s])" % (u1, u2, c1, c2),
+                    lambda db, spec=spec: [P.quantity(ObtainQuantity(spec())), ObtainQuantity(spec()).GetUnitName()]))
     for _ in range(n):
         c = rng.choice(cats)
         r = rng.choice(rows)
